@@ -1437,6 +1437,302 @@ def singledispatch_chains(modules, log):
         ast.fix_missing_locations(mi.tree)
 
 
+def dissolve_method_objects(modules, known_funcs, log):
+    """A class introduced by a refactoring that only bundles a few values with the functions using them -- no base class,
+    fields set once in __init__ from its arguments and never re-assigned, instances created and used on the spot
+    (`K(a).m(x)`, or `k = K(a)` followed only by `k.m(x)` / `k.prop`) -- is taken apart: every method becomes a module-level
+    function `K__m(<constructor parameters>, <its own parameters>)` that first re-computes the fields as locals; uses are
+    rewritten to calls of those functions.  (They are then expanded like any helper introduced by a refactoring.)"""
+    known_cls = {q.rsplit(".", 2)[0] + "." + q.rsplit(".", 2)[1] for q in known_funcs if q.count(".") >= 2}
+    for mi in modules.values():
+        for K in [st for st in mi.tree.body if isinstance(st, ast.ClassDef)]:
+            if f"{mi.name}.{K.name}" in known_cls or any(ast.unparse(b) != "object" for b in K.bases) or K.decorator_list or K.keywords:
+                continue
+            meths = {c.name: c for c in K.body if isinstance(c, ast.FunctionDef)}
+            consts = {c.targets[0].id: c.value for c in K.body if isinstance(c, ast.Assign) and len(c.targets) == 1 and isinstance(c.targets[0], ast.Name) and isinstance(c.value, ast.Constant)}
+            other = [c for c in K.body if not isinstance(c, (ast.FunctionDef, ast.Pass)) and not (isinstance(c, ast.Expr) and isinstance(c.value, ast.Constant)) and not (isinstance(c, ast.Assign) and len(c.targets) == 1 and isinstance(c.targets[0], ast.Name) and c.targets[0].id in consts) and not (isinstance(c, ast.AnnAssign) and c.value is None)]
+            init = meths.get("__init__")
+            if other or init is None or init.args.vararg or init.args.kwarg or init.args.kwonlyargs:
+                continue
+            if any(n.startswith("__") and n != "__init__" for n in meths):
+                continue
+            # __init__: local assignments and field assignments only
+            cparams = [a.arg for a in init.args.args[1:]]
+            init_body = [x for x in init.body if not (isinstance(x, ast.Expr) and isinstance(x.value, ast.Constant))]
+            fields, ok = [], True
+            for st in init_body:
+                if isinstance(st, (ast.Assign, ast.AnnAssign)) and (st.value is not None):
+                    t = st.targets[0] if isinstance(st, ast.Assign) and len(st.targets) == 1 else st.target if isinstance(st, ast.AnnAssign) else None
+                    if isinstance(t, ast.Attribute) and isinstance(t.value, ast.Name) and t.value.id == "self":
+                        fields.append(t.attr)
+                        continue
+                    if isinstance(t, ast.Name):
+                        continue
+                ok = False
+            if not ok or not fields:
+                continue
+            # fields that merely hold a constructor parameter (never re-bound in __init__) are read as that parameter
+            direct = {}
+            stored_in_init = [y.id for y in ast.walk(init) if isinstance(y, ast.Name) and isinstance(y.ctx, ast.Store)]
+            for st in init_body:
+                t = st.targets[0] if isinstance(st, ast.Assign) and len(st.targets) == 1 else getattr(st, "target", None)
+                if isinstance(t, ast.Attribute) and isinstance(st.value, ast.Name) and st.value.id in cparams and st.value.id not in stored_in_init:
+                    direct[t.attr] = st.value.id
+            # immutable: no other method stores into self.<anything>
+            if any(isinstance(y, ast.Attribute) and isinstance(y.ctx, (ast.Store, ast.Del)) and isinstance(y.value, ast.Name) and y.value.id == "self" for n_, m in meths.items() if n_ != "__init__" for y in ast.walk(m)):
+                continue
+            # `self` is used only as self.<field|const|method|property>
+            props = {n for n, m in meths.items() if any(ast.unparse(d) == "property" for d in m.decorator_list)}
+            statics = {n for n, m in meths.items() if any(ast.unparse(d) == "staticmethod" for d in m.decorator_list)}
+            if any(d for n, m in meths.items() for d in m.decorator_list if ast.unparse(d) not in ("property", "staticmethod")):
+                continue
+            bad_self = False
+            for n_, m in meths.items():
+                for y in ast.walk(m):
+                    if isinstance(y, ast.Name) and y.id == "self" and isinstance(y.ctx, ast.Load):
+                        pass
+                for y in ast.walk(m):
+                    if isinstance(y, ast.Attribute) and isinstance(y.value, ast.Name) and y.value.id == "self" and y.attr not in fields and y.attr not in consts and y.attr not in meths:
+                        bad_self = True
+                names_self = [y for y in ast.walk(m) if isinstance(y, ast.Name) and y.id == "self"]
+                attrs_self = [y for y in ast.walk(m) if isinstance(y, ast.Attribute) and isinstance(y.value, ast.Name) and y.value.id == "self"]
+                if len(names_self) != len(attrs_self) + (0 if n_ in statics else 0):
+                    bad_self = True
+            if bad_self:
+                continue
+            # uses of K in the module
+            uses_ok = True
+            inst_vars = {}  # (function node id, var) -> ctor call
+            for fn in [x for x in ast.walk(mi.tree) if isinstance(x, (ast.FunctionDef, ast.AsyncFunctionDef))] + [mi.tree]:
+                pass
+            parents = {}
+            for node in ast.walk(mi.tree):
+                for ch in ast.iter_child_nodes(node):
+                    parents[id(ch)] = node
+            refs = [x for x in ast.walk(mi.tree) if isinstance(x, ast.Name) and x.id == K.name and not any(x is y for y in ast.walk(K))]
+            ctor_calls = []
+            for r in refs:
+                pr = parents.get(id(r))
+                if not (isinstance(pr, ast.Call) and pr.func is r):
+                    uses_ok = False
+                    break
+                ctor_calls.append(pr)
+            if not uses_ok or not ctor_calls:
+                continue
+
+            def full_args(call, params, defaults):
+                if any(isinstance(a, ast.Starred) for a in call.args) or any(k.arg is None for k in call.keywords) or len(call.args) > len(params):
+                    return None
+                m_ = dict(zip(params, call.args))
+                for k in call.keywords:
+                    m_[k.arg] = k.value
+                for pn, dv in zip(reversed(params), reversed(defaults)):
+                    m_.setdefault(pn, dv)
+                if set(m_) != set(params):
+                    return None
+                return [m_[p_] for p_ in params]
+
+            plan = []  # (kind, node, ...)
+            for c in ctor_calls:
+                cargs = full_args(c, cparams, init.args.defaults)
+                pr = parents.get(id(c))
+                if cargs is None:
+                    uses_ok = False
+                    break
+                if isinstance(pr, ast.Attribute) and pr.value is c and pr.attr in meths:
+                    plan.append(("direct", c, pr, cargs))
+                elif isinstance(pr, ast.Assign) and len(pr.targets) == 1 and isinstance(pr.targets[0], ast.Name) and all(isinstance(a, (ast.Name, ast.Constant, ast.Attribute)) for a in cargs):
+                    # k = K(a): every other use of k in the enclosing function is k.<member>
+                    encl = pr
+                    while encl is not None and not isinstance(encl, (ast.FunctionDef, ast.AsyncFunctionDef, ast.Module)):
+                        encl = parents.get(id(encl))
+                    v = pr.targets[0].id
+                    occ = [x for x in ast.walk(encl) if isinstance(x, ast.Name) and x.id == v]
+                    if sum(1 for x in occ if isinstance(x.ctx, ast.Store)) != 1 or any(not (isinstance(parents.get(id(x)), ast.Attribute) and parents[id(x)].attr in meths) for x in occ if isinstance(x.ctx, ast.Load)):
+                        uses_ok = False
+                        break
+                    argnames = {n.id for a in cargs for n in ast.walk(a) if isinstance(n, ast.Name)}
+                    if any(isinstance(x, ast.Name) and x.id in argnames and isinstance(x.ctx, ast.Store) and getattr(x, "lineno", 0) > pr.lineno for x in ast.walk(encl) if not isinstance(encl, ast.Module)):
+                        uses_ok = False
+                        break
+                    plan.append(("var", c, pr, cargs, encl, v))
+                else:
+                    uses_ok = False
+                    break
+            if not uses_ok:
+                continue
+            # ---- build the functions
+            def fname(m_):
+                return f"{K.name}__{m_}"
+
+            def rewrite_self(node):
+                class R(ast.NodeTransformer):
+                    def visit_Call(self, n):
+                        self.generic_visit(n)
+                        f_ = n.func
+                        if isinstance(f_, ast.Attribute) and isinstance(f_.value, ast.Name) and f_.value.id == "self" and f_.attr in meths and f_.attr not in props:
+                            pre_ = [] if f_.attr in statics else [ast.Name(id=p_, ctx=ast.Load()) for p_ in cparams]
+                            return ast.copy_location(ast.Call(func=ast.Name(id=fname(f_.attr), ctx=ast.Load()), args=pre_ + n.args, keywords=n.keywords), n)
+                        return n
+
+                    def visit_Attribute(self, n):
+                        self.generic_visit(n)
+                        if isinstance(n.value, ast.Name) and n.value.id == "self" and isinstance(n.ctx, ast.Load):
+                            if n.attr in direct:
+                                return ast.copy_location(ast.Name(id=direct[n.attr], ctx=ast.Load()), n)
+                            if n.attr in fields:
+                                return ast.copy_location(ast.Name(id=n.attr + "__s", ctx=ast.Load()), n)
+                            if n.attr in consts:
+                                return ast.copy_location(_copy(consts[n.attr]), n)
+                            if n.attr in props:
+                                return ast.copy_location(ast.Call(func=ast.Name(id=fname(n.attr), ctx=ast.Load()), args=[ast.Name(id=p_, ctx=ast.Load()) for p_ in cparams], keywords=[]), n)
+                        return n
+
+                return R().visit(node)
+
+            new_funcs = []
+            for n_, m in meths.items():
+                if n_ == "__init__":
+                    continue
+                own = m.args.args[(0 if n_ in statics else 1):]
+                pre_stmts = []
+                if n_ not in statics:
+                    used_fields = {y.attr for y in ast.walk(m) if isinstance(y, ast.Attribute) and isinstance(y.value, ast.Name) and y.value.id == "self" and y.attr in fields and y.attr not in direct}
+                    if used_fields:
+                        for st in init_body:
+                            t0 = st.targets[0] if isinstance(st, ast.Assign) and len(st.targets) == 1 else getattr(st, "target", None)
+                            if isinstance(t0, ast.Attribute) and t0.attr in direct:
+                                continue
+                            st2 = ast.parse(ast.unparse(st)).body[0]
+                            t = st2.targets[0] if isinstance(st2, ast.Assign) else st2.target
+                            if isinstance(t, ast.Attribute):
+                                new_t = ast.Name(id=t.attr + "__s", ctx=ast.Store())
+                                st2 = ast.Assign(targets=[new_t], value=st2.value)
+                            elif isinstance(st2, ast.AnnAssign):
+                                st2 = ast.Assign(targets=[st2.target], value=st2.value)
+                            st2 = rewrite_self(st2)
+                            ast.copy_location(st2, st)
+                            for y in ast.walk(st2):
+                                if not hasattr(y, "lineno"):
+                                    ast.copy_location(y, st)
+                            pre_stmts.append(st2)
+                body = [rewrite_self(ast.parse(ast.unparse(b)).body[0]) for b in m.body]
+                for b, src_b in zip(body, m.body):
+                    for y_dst, y_src in zip(ast.walk(b), ast.walk(src_b)):
+                        if hasattr(y_src, "lineno"):
+                            y_dst.lineno, y_dst.col_offset = y_src.lineno, y_src.col_offset
+                            y_dst.end_lineno, y_dst.end_col_offset = getattr(y_src, "end_lineno", y_src.lineno), getattr(y_src, "end_col_offset", y_src.col_offset)
+                args = ast.arguments(posonlyargs=[], args=([] if n_ in statics else [ast.arg(arg=p_) for p_ in cparams]) + [ast.arg(arg=a.arg, annotation=a.annotation) for a in own], kwonlyargs=[], kw_defaults=[], defaults=list(m.args.defaults), vararg=m.args.vararg, kwarg=m.args.kwarg)
+                f_new = ast.FunctionDef(name=fname(n_), args=args, body=pre_stmts + body, decorator_list=[], returns=None)
+                ast.copy_location(f_new, m)
+                ast.fix_missing_locations(f_new)
+                new_funcs.append(f_new)
+            # ---- rewrite the uses
+            for item in plan:
+                if item[0] == "direct":
+                    _, c, attr, cargs = item
+                    call = parents.get(id(attr))
+                    if attr.attr in props:
+                        new = ast.Call(func=ast.Name(id=fname(attr.attr), ctx=ast.Load()), args=cargs, keywords=[])
+                        _replace_node(parents, attr, new)
+                    elif isinstance(call, ast.Call) and call.func is attr:
+                        call.func = ast.copy_location(ast.Name(id=fname(attr.attr), ctx=ast.Load()), attr)
+                        call.args = ([] if attr.attr in statics else [_copy(a) for a in cargs]) + call.args
+                else:
+                    _, c, asg, cargs, encl, v = item
+                    for x in [x for x in ast.walk(encl) if isinstance(x, ast.Name) and x.id == v and isinstance(x.ctx, ast.Load)]:
+                        attr = parents[id(x)]
+                        call = parents.get(id(attr))
+                        if attr.attr in props:
+                            _replace_node(parents, attr, ast.Call(func=ast.Name(id=fname(attr.attr), ctx=ast.Load()), args=[_copy(a) for a in cargs], keywords=[]))
+                        elif isinstance(call, ast.Call) and call.func is attr:
+                            call.func = ast.copy_location(ast.Name(id=fname(attr.attr), ctx=ast.Load()), attr)
+                            call.args = ([] if attr.attr in statics else [_copy(a) for a in cargs]) + call.args
+                    # drop `k = K(a)`
+                    holder = parents.get(id(asg))
+                    for field in ("body", "orelse", "finalbody"):
+                        blk = getattr(holder, field, None)
+                        if isinstance(blk, list) and any(b is asg for b in blk):
+                            nb = [b for b in blk if b is not asg] or [ast.copy_location(ast.Pass(), asg)]
+                            setattr(holder, field, nb)
+            idx = mi.tree.body.index(K)
+            mi.tree.body[idx : idx + 1] = new_funcs
+            ast.fix_missing_locations(mi.tree)
+            log.append(f"method-object class {mi.name}.{K.name} taken apart into {len(new_funcs)} functions")
+
+
+def _replace_node(parents, old, new):
+    p = parents.get(id(old))
+    ast.copy_location(new, old)
+    ast.fix_missing_locations(new)
+    for f_, v in ast.iter_fields(p):
+        if v is old:
+            setattr(p, f_, new)
+        elif isinstance(v, list):
+            for i, x in enumerate(v):
+                if x is old:
+                    v[i] = new
+    parents[id(new)] = p
+
+
+def absorb_thin_wrappers(modules, known_funcs, log):
+    """A known module-level function W that has become a thin wrapper `return F(<its own parameters / constants>)` around a
+    function F introduced by a refactoring: every other call F(b...) in the module whose arguments can be mapped back onto
+    W's parameters is written as the call W(...) it is equivalent to (F's body then belongs to W alone and is expanded there)."""
+    for mi in modules.values():
+        top = {st.name: st for st in mi.tree.body if isinstance(st, ast.FunctionDef)}
+        for wname, W in top.items():
+            if f"{mi.name}.{wname}" not in known_funcs:
+                continue
+            body = [x for x in W.body if not (isinstance(x, ast.Expr) and isinstance(x.value, ast.Constant))]
+            if len(body) != 1 or not isinstance(body[0], (ast.Return, ast.Expr)) or not isinstance(body[0].value, ast.Call):
+                continue
+            call = body[0].value
+            if not isinstance(call.func, ast.Name) or call.func.id not in top or f"{mi.name}.{call.func.id}" in known_funcs or call.keywords or any(isinstance(a, ast.Starred) for a in call.args):
+                continue
+            F = top[call.func.id]
+            fparams = [a.arg for a in F.args.args]
+            wparams = [a.arg for a in W.args.args]
+            if len(call.args) != len(fparams) or W.args.vararg or W.args.kwarg or F.args.vararg or F.args.kwarg:
+                continue
+            used = {n.id for n in ast.walk(F) if isinstance(n, ast.Name) and n.id in fparams}
+            pos_of = {}  # W param -> position in F's argument list
+            ok = True
+            for j, a in enumerate(call.args):
+                if isinstance(a, ast.Name) and a.id in wparams and a.id not in pos_of:
+                    pos_of[a.id] = j
+                elif fparams[j] in used:
+                    ok = False
+            n_def = len(W.args.defaults)
+            required = wparams[: len(wparams) - n_def] if n_def else wparams
+            if not ok or any(p_ not in pos_of for p_ in required):
+                continue
+            n = 0
+            for holder in ast.walk(mi.tree):
+                if holder is W or holder is F:
+                    continue
+                for c in [x for x in ast.iter_child_nodes(holder)]:
+                    pass
+            for c in [x for x in ast.walk(mi.tree) if isinstance(x, ast.Call) and isinstance(x.func, ast.Name) and x.func.id == F.name]:
+                if c is call or any(c is y for y in ast.walk(F)):
+                    continue
+                if c.keywords or len(c.args) != len(fparams) or any(isinstance(a, ast.Starred) for a in c.args):
+                    continue
+                new_args = []
+                for p_ in wparams:
+                    if p_ in pos_of:
+                        new_args.append(c.args[pos_of[p_]])
+                    else:
+                        break
+                if len(new_args) < len(required):
+                    continue
+                c.func = ast.copy_location(ast.Name(id=wname, ctx=ast.Load()), c.func)
+                c.args = new_args
+                n += 1
+            if n:
+                log.append(f"{n} call(s) of {mi.name}.{F.name} written as calls of the known wrapper {wname}")
+
+
 def recover_moved_methods(modules, known_funcs, log):
     """A known method Cls.m that is gone, while its module now has an unknown module-level function m with the method's
     parameters minus `self` (the method never used self and was moved out of the class): the function is put back as
@@ -2085,6 +2381,8 @@ def run(modules, known_funcs):
     merge_new_modules(modules, known_funcs, log)
     fold_new_bases(modules, known_funcs, log)
     singledispatch_chains(modules, log)
+    dissolve_method_objects(modules, known_funcs, log)
+    absorb_thin_wrappers(modules, known_funcs, log)
     recover_renames(modules, known_funcs, log)
     drop_local_annotations(modules, log)
     expand_descriptors(modules, log)
